@@ -15,7 +15,7 @@ func notYet(id string) {
 }
 
 func init() {
-	for _, id := range []string{"C01", "C02", "C03", "C04", "C05", "C07", "C08", "C10", "C11", "C13", "C15", "C20"} {
+	for _, id := range []string{"C01", "C02", "C03", "C04", "C05", "C07", "C08", "C10", "C11", "C15", "C20"} {
 		notYet(id)
 	}
 	claim("C06", "other",
@@ -52,4 +52,8 @@ func init() {
 		"Static check that the bodies of parse.Input and buffer.Lexer implement exactly the documented start/pos arithmetic (affine normal forms of every store, index, slice bound and EOF comparison), that every escaping slice is capped (buf[a:b:b]), that PeekRune/MoveRune look-ahead reads and reported lengths are covered by guards that account for the position argument (arithmetically or by the sentinel argument), and that the constructors write the caller's array only at index len(b) under cap(b)>len(b) with Restore putting the byte back. History-level behaviour and UTF-8 decoding values are not decided.",
 		"Integer arithmetic treated as exact.", "affine normalisation of SSA expressions + dominator path facts; AST pattern rule for the borrow/restore idiom", "DESIGN.md 4/C12",
 		"Decided: R-INPUT, R-PEEKRUNE, R-BORROW. Not decided: behaviour over operation histories, decoded rune values, readers failing mid-stream (value/history-level).")
+	claim("C13", "other",
+		"Static necessary conditions of three clauses: (ShiftLen) whenever StreamLexer installs a different backing array every field living in the buffer's coordinate system is re-based by the same offset; (Err timing) Err() hides io.EOF exactly while pos < len(buf) and never hides another error; (unfreed tokens intact) bufferPool reuses the current buffer only when tail==0, pos>=len(oldBuf), size<=cap, reuses a pooled block only when inactive, and deactivates a block only once pos passed its length. Chunking independence, the memory bound and token lifetime as such are schedule/history-valued and not decided.",
+		"Coordinate fields are inferred (used as index/bound of z.buf or assigned from such).", "field-coordinate inference + affine offset comparison on SSA; dominator path facts", "DESIGN.md 4/C13",
+		"Decided: R-REBASE, R-STREAMERR, R-POOLREUSE (structural necessary conditions). Not decided: equivalence with a cursor over the whole input for all chunkings, memory bound, token lifetime vs Free (history/schedule-valued).")
 }
